@@ -78,43 +78,42 @@ theorem one_port_rows :
   simp only [List.mem_cons, List.mem_nil_iff, or_false] at h
   rcases h with rfl | rfl | rfl | rfl | rfl | rfl | rfl | rfl | rfl | rfl | rfl | rfl | rfl | rfl | rfl | rfl | rfl | rfl | rfl | rfl <;> rfl
 
-/-- A one-port whose two nodes carry the Bipole pins rotated by an angle of the code's table gets the hint
+/-- A one-port whose two nodes carry the Bipole pins rotated by any multiple of 90 degrees gets the hint
     "second node in direction `dirOfAngle angle`, length size·k" -- for every size, scale-free. -/
 theorem one_port_item (k : Rat) (r : Resolved) (a b : String) (ta tb : Rat × Rat) (hskip : r.skip = false)
     (hp : r.pins = [(a, ta), (b, tb)])
-    (ha : rotCode r.angle (-1/2, 0) = some ta) (hb : rotCode r.angle (1/2, 0) = some tb) :
-    ∃ d, dirOfAngle r.angle = some d ∧ r.item k = some (.hint ⟨a, b, d, r.size * k, !r.stretch⟩) := by
-  unfold rotCode at ha hb
-  unfold Resolved.item
-  simp only [hskip, hp, Bool.false_eq_true, if_false]
-  split_ifs at ha hb with h0 h90 h180 h180' h90'
-  all_goals (injection ha with ha; injection hb with hb; subst ha; subst hb)
-  · refine ⟨.right, by rw [h0]; decide +kernel, ?_⟩; norm_num
-  · refine ⟨.up, by rw [h90]; decide +kernel, ?_⟩; norm_num
-  · refine ⟨.left, by rw [h180]; decide +kernel, ?_⟩; norm_num
-  · refine ⟨.left, by rw [h180']; decide +kernel, ?_⟩; norm_num
-  · refine ⟨.down, by rw [h90']; decide +kernel, ?_⟩; norm_num
+    (ha : rotExact r.angle (-1/2, 0) = some ta) (hb : rotExact r.angle (1/2, 0) = some tb) :
+    ∃ d, dirOfAngle r.angle = some d ∧ r.item k = some (.hint ⟨a, b, d, r.size * k, !r.stretch⟩) :=
+  one_port_item_exact k r a b ta tb hskip hp ha hb
 
 /-- ... and that is literally the item the specification assigns to a one-port from its hinted angle alone
-    (`specItem` does not look at pin coordinates): spec and model agree on every one-port inside the code's table -/
+    (`specItem` does not look at pin coordinates): spec and model agree on every one-port -/
 theorem one_port_spec_item (k : Rat) (r : Resolved) (a b : String) (ta tb : Rat × Rat) (hskip : r.skip = false)
     (hop : r.onePort = true) (hp : r.pins = [(a, ta), (b, tb)])
-    (ha : rotCode r.angle (-1/2, 0) = some ta) (hb : rotCode r.angle (1/2, 0) = some tb) :
+    (ha : rotExact r.angle (-1/2, 0) = some ta) (hb : rotExact r.angle (1/2, 0) = some tb) :
     r.specItem k = r.item k := by
   obtain ⟨d, hd, hi⟩ := one_port_item k r a b ta tb hskip hp ha hb
   rw [hi]
   unfold Resolved.specItem
   simp only [hskip, hop, hp, hd, Bool.false_eq_true, if_false]
 
-/-- the rotation table of the code (`Cpt.R`: 0, 90, 180, −180, −90) agrees with the quarter-turn meaning wherever
-    it applies; outside the table the code uses float cos/sin and the model refuses (`unsupported-angle`) while the
-    spec (`rotExact`) still says what the hint means -/
-theorem rotCode_agrees (a : Rat) (v w : Rat × Rat) (h : rotCode a v = some w) : rotExact a v = some w := by
-  unfold rotCode at h
-  split_ifs at h with h0 h90 h180 h180' h90'
-  all_goals (first | subst h0 | subst h90 | subst h180 | subst h180' | subst h90')
-  all_goals (rw [← h]; unfold rotExact; simp)
-  all_goals (try norm_num)
+/-- The rotation of the code (`Cpt.R`: the generated `Rdict` = `Gen.rotTable`, looked up after the normalisation
+    `Gen.rotNormalise` if the source has one) agrees with the quarter-turn meaning wherever it applies.  Outside the
+    table the code uses float cos/sin and the model refuses (`unsupported-angle`), while `rotExact` still says what the
+    hint means.  Re-proved against the regenerated table on every run. -/
+theorem rotCode_agrees (a : Rat) (v w : Rat × Rat) (h : rotCode a v = some w) : rotExact a v = some w :=
+  rotCode_rotExact a v w h
+
+/-- lifted through the resolver: an element / a netlist that the model of the code resolves is resolved to the same
+    thing by the rotation the hints mean; so `graphsOf` (model of `_make_graphs`) and `specOf` (meaning of the hints)
+    work on the same resolved elements whenever the former is defined -/
+theorem resolve_agrees (k : Rat) (all : List String) (e : Elt) (r : Resolved)
+    (h : resolveWith rotCode k all e = .ok r) : resolveWith rotExact k all e = .ok r :=
+  resolveWith_agrees k all e r h
+
+theorem resolve_all_agrees (n : Netlist) (x : List String × List Resolved)
+    (h : resolveAll rotCode n = .ok x) : resolveAll rotExact n = .ok x :=
+  resolveAll_agrees n x h
 
 /-! ## 3. longest-path placement (the model's placer, witness of consistency) -/
 
@@ -138,6 +137,14 @@ theorem fixed_edges_exact_partial (edges : List WEdge) (l : List String) (hnd : 
     (e : WEdge) (he : e ∈ edges) (hs : e.src ∈ l) (hd : e.dst ∈ l) (hsz : 0 ≤ e.size)
     (hu : ∀ e' ∈ edges, e'.dst = e.dst → e' = e) : lp edges l e.dst - lp edges l e.src = e.size :=
   lp_exact_of_unique edges l hnd ht e he hs hd hsz hu
+
+/-- partial, chains: along a walk of fixed-size edges each of which is the only edge into its head, the placed distance
+    between the ends is exactly the sum of the sizes (any length). -/
+theorem fixed_chain_exact_partial (edges : List WEdge) (l : List String) (hnd : l.Nodup) (ht : RevTopo edges l)
+    (path : List WEdge) (s : String) (hp : PathFrom s path)
+    (hall : ∀ e ∈ path, e ∈ edges ∧ e.src ∈ l ∧ e.dst ∈ l ∧ 0 ≤ e.size ∧ ∀ e' ∈ edges, e'.dst = e.dst → e' = e) :
+    lp edges l (pathEnd s path) - lp edges l s = (path.map (·.size)).sum :=
+  lp_exact_chain edges l hnd ht path s hp hall
 
 /-! ## non-vacuity -/
 
@@ -170,5 +177,13 @@ example : checkPos ⟨["1", "2"], [.hint ⟨"1", "2", .right, 4, false⟩]⟩ [(
           checkPos ⟨["1", "2"], [.hint ⟨"1", "2", .right, 4, false⟩]⟩ [("1", (0, 0)), ("2", (3, 0))] = false ∧
           checkPos ⟨["1", "2"], [.hint ⟨"1", "2", .right, 4, false⟩]⟩ [("1", (0, 0)), ("2", (5, 1))] = false := by
   decide +kernel
+
+/-- `fixed_chain_exact_partial`: a two-edge fixed chain satisfies the hypotheses -/
+example : PathFrom "a" [⟨"a", "b", 2⟩, ⟨"b", "c", 1⟩] ∧ pathEnd "a" [⟨"a", "b", 2⟩, ⟨"b", "c", 1⟩] = "c" ∧
+    lp [⟨"a", "b", 2⟩, ⟨"b", "c", 1⟩] ["c", "b", "a"] "c" = 3 := by
+  refine ⟨⟨rfl, rfl, trivial⟩, rfl, by decide +kernel⟩
+
+/-- `rotCode_agrees` / `resolve_agrees`: the code's table applies to `down` (-90) -/
+example : rotCode (-90) (1/2, 0) = some (0, -1/2) := by decide +kernel
 
 end Lcapy.C20
